@@ -78,7 +78,7 @@ type Op struct {
 
 func (o Op) String() string {
 	switch o.Kind {
-	case "insert", "update":
+	case "insert", "update", "touch":
 		return fmt.Sprintf("%s %s %q v%d", o.Kind, o.Type, o.Key, o.Val)
 	case "delete", "badvalue":
 		return fmt.Sprintf("%s %s %q", o.Kind, o.Type, o.Key)
@@ -118,6 +118,11 @@ func alphabet() []Op {
 		for _, k := range keys {
 			a = append(a, Op{Kind: "delete", Type: t, Key: k})
 		}
+	}
+	// an update that carries an old value equal to its new one (a "touch"): what the writer
+	// believed the value to be is not what decides - the update sets the value like any other
+	for v := 0; v < 2; v++ {
+		a = append(a, Op{Kind: "touch", Type: "U", Key: keys[0], Val: v})
 	}
 	a = append(a, Op{Kind: "reset"}, Op{Kind: "snapshot-start"}, Op{Kind: "snapshot-end"})
 	// an insert whose value cannot be decoded into the registered entity type: the one
@@ -160,6 +165,8 @@ func (o Op) message() msg {
 		case "W":
 			return msg{change: must(state.Update(o.Key, wVals[o.Val]))}
 		}
+	case "touch":
+		return msg{change: must(state.UpdateWithOldValue(o.Key, uVals[o.Val], uVals[o.Val]))}
 	case "delete":
 		switch o.Type {
 		case "U":
@@ -255,7 +262,7 @@ func (m *Model) Step(o Op, pos int, strict bool) (fails bool, onErr int) {
 			break // ignored, but the event counts as applied
 		}
 		switch o.Kind {
-		case "insert", "update":
+		case "insert", "update", "touch":
 			c[o.Key] = o.Val
 		case "delete":
 			delete(c, o.Key)
